@@ -198,8 +198,8 @@ func decodeHeapMap(in *bytes.ByteBuffer, length uint16) map[string]string {
 		return res
 	}
 
-	readedLength := uint16(0)
-	for readedLength < length {
+	readedLength := 0
+	for readedLength < int(length) {
 		var key, value string
 		keyLength := bytes.ReadUInt16(in)
 		if keyLength == 0 {
@@ -220,7 +220,7 @@ func decodeHeapMap(in *bytes.ByteBuffer, length uint16) map[string]string {
 		}
 
 		res[key] = value
-		readedLength += 4 + keyLength + valueLength
+		readedLength += 4 + int(keyLength) + int(valueLength)
 		fmt.Sprintln("done")
 	}
 	return res
